@@ -135,6 +135,7 @@ class SimTransport(transports._FlowControlMixin, transports.Transport):
         self.held = False
         self.opened_at = loop.time()
         self.accepted_at = None
+        self.paused_at = None  # virtual time at which the write buffer crossed its high-water mark
         self.closed_at = None
         self.bytes_written = 0
         self.write_log = None  # optional list of (time, nbytes)
@@ -169,6 +170,8 @@ class SimTransport(transports._FlowControlMixin, transports.Transport):
             self.write_log.append((self._loop.time(), len(data)))
         self.net.send(self, data)
         self._maybe_pause_protocol()
+        if self._protocol_paused and self.paused_at is None:
+            self.paused_at = self._loop.time()
 
     def writelines(self, lines):
         self.write(b"".join(lines))
@@ -177,6 +180,8 @@ class SimTransport(transports._FlowControlMixin, transports.Transport):
         self.inflight -= n
         if not self._conn_lost:
             self._maybe_resume_protocol()
+            if not self._protocol_paused:
+                self.paused_at = None
 
     def can_write_eof(self):
         return True
